@@ -112,6 +112,77 @@ fn check_decomposition<M: ConvexCellMarker + 'static>(
     Some((cells, faces))
 }
 
+/// Per-cell extra data (a function of the generator index) must reach exactly the integrals of the cell with
+/// that index, under every mask, through the three data-carrying entry points; the integrals themselves must
+/// be bitwise the ones of the data-free entry points, in the same order.
+#[allow(clippy::too_many_arguments)]
+fn check_data_delivery<M: ConvexCellMarker + 'static>(
+    e: &mut Eval,
+    check: &str,
+    st: &State,
+    case: &str,
+    extra: &[(&str, String)],
+    integ: &VoronoiIntegrator<M>,
+    cells: &[CellRec],
+    faces: &[FaceIntegrator<FaceRec>],
+    faces_sym: &[FaceIntegrator<FaceRec>],
+    route: &str,
+) {
+    let rp = || replay_text(check, st, extra);
+    let n = st.n();
+    let data: Vec<u64> = (0..n).map(datum).collect();
+    let cd = integ.compute_cell_integrals_with_data::<u64, CellRecD>(&data);
+    e.transitions += 1;
+    if cd.len() != cells.len() {
+        e.issue("data-cell-integral-count", case, format!("[{}] {} results with data, {} without", route, cd.len(), cells.len()), rp());
+    } else {
+        for (x, y) in cd.iter().zip(cells.iter()) {
+            if x.0.data != datum(x.0.cell_idx) {
+                e.issue("data-delivered-to-wrong-cell", case, format!("[{}] cell integral of cell {} received the datum of index {:?}", route, x.0.cell_idx, (x.0.data as i64 - 3) as f64 / 7.), rp());
+                break;
+            }
+            if x.0.cell_idx != y.cell_idx || x.0.m.iter().zip(y.m.iter()).any(|(p, q)| p.to_bits() != q.to_bits()) {
+                e.issue("data-cell-integrals-differ", case, format!("[{}] result for cell {} differs from the data-free result for cell {}", route, x.0.cell_idx, y.cell_idx), rp());
+                break;
+            }
+        }
+    }
+    let same = |name: &str, e: &mut Eval, xs: &[FaceIntegrator<FaceRecD>], ys: &[FaceIntegrator<FaceRec>]| {
+        if xs.len() != ys.len() {
+            e.issue(format!("data-{}-count", name), case, format!("[{}] {} results with data, {} without", route, xs.len(), ys.len()), rp());
+            return;
+        }
+        for (x, y) in xs.iter().zip(ys.iter()) {
+            let r = &x.integral().0;
+            if r.data != datum(x.left()) || r.cell_idx != x.left() {
+                e.issue("data-delivered-to-wrong-cell", case, format!("[{}] {} of cell {} (left {}) received the datum of index {:?}", route, name, r.cell_idx, x.left(), (r.data as i64 - 3) as f64 / 7.), rp());
+                return;
+            }
+            if x.left() != y.left() || x.right() != y.right() || r.plane_idx != y.integral().plane_idx || r.area.to_bits() != y.integral().area.to_bits() || vec_bits(r.centroid) != vec_bits(y.integral().centroid) {
+                e.issue(format!("data-{}-differ", name), case, format!("[{}] result (left {}, right {:?}) differs from the data-free result (left {}, right {:?})", route, x.left(), x.right(), y.left(), y.right()), rp());
+                return;
+            }
+        }
+    };
+    let fd = integ.compute_face_integrals_with_data::<u64, FaceRecD>(&data);
+    same("face-integrals", e, &fd, faces);
+    let fs = integ.compute_face_integrals_sym_with_data::<u64, FaceRecD>(&data);
+    same("sym-face-integrals", e, &fs, faces_sym);
+    e.transitions += 2;
+    // single-cell entry points
+    for c in integ.cells_iter() {
+        let r = c.compute_cell_integral::<u64, CellRecD>(datum(c.idx));
+        if r.0.data != datum(c.idx) || r.0.cell_idx != c.idx {
+            e.issue("data-delivered-to-wrong-cell", case, format!("[{}] ConvexCell::compute_cell_integral of cell {}", route, c.idx), rp());
+        }
+        for f in c.compute_face_integrals::<u64, FaceRecD>(datum(c.idx)) {
+            if f.integral().0.data != datum(c.idx) || f.left() != c.idx {
+                e.issue("data-delivered-to-wrong-cell", case, format!("[{}] ConvexCell::compute_face_integrals of cell {}", route, c.idx), rp());
+            }
+        }
+    }
+}
+
 pub fn eval_c14(st: &State) -> Eval {
     let mut e = Eval::default();
     let check = "c14";
@@ -157,6 +228,7 @@ pub fn eval_c14(st: &State) -> Eval {
                 e.issue("with-data-sym-face-integrals-differ", &case, format!("{} vs {} results", f3.len(), f3ref.len()), rp());
             }
             h.u64(cells.iter().map(|c| c.tets as u64).sum());
+            check_data_delivery(&mut e, check, st, &case, &extra, &integ, cells, faces, &f3ref, "without-faces");
         }
         if st.dim == 3 {
             match guarded(|| integ.clone().with_faces()) {
@@ -164,6 +236,10 @@ pub fn eval_c14(st: &State) -> Eval {
                 Ok(wf) => {
                     e.impl_runs += 1;
                     let b = check_decomposition(&mut e, check, st, &case, &extra, &wf, mask.as_deref(), &oc, &t, "with-faces");
+                    if let Some((cells, faces)) = &b {
+                        let symref = wf.compute_face_integrals_sym::<FaceRec>();
+                        check_data_delivery(&mut e, check, st, &case, &extra, &wf, cells, faces, &symref, "with-faces");
+                    }
                     // with vs without faces agree up to rounding
                     if let (Some((ca, _)), Some((cb, _))) = (&a, &b) {
                         for (x, y) in ca.iter().zip(cb.iter()) {
